@@ -573,7 +573,12 @@ def gen_spec(rng, cfg):
     for _ in range(50):
         spec = SpecGen(rng, cfg).generate()
         if spec_ok(spec):
-            return spec
+            break
+    # the process ENVIRONMENT the program runs in (what a deployment configures, not the program): the stdlib logging level
+    # of the loggers labrea writes to, logging.disable(), RuntimeWarnings turned into errors.  None of it may change what
+    # the properties talk about.
+    if cfg.get("env") is not False and rng.random() < 0.2:
+        spec["env"] = {"log_level": rng.choice(["DEBUG", "INFO", None]), "log_disable": rng.random() < 0.3, "warn_error": rng.random() < 0.4}
     return spec
 
 
@@ -688,7 +693,10 @@ def prune(spec):
             continue
         keep.add(i)
         stack.extend(children(by[i]))
-    return {"nodes": [copy.deepcopy(n) for n in spec["nodes"] if n["id"] in keep], "roots": list(spec["roots"])}
+    out = {"nodes": [copy.deepcopy(n) for n in spec["nodes"] if n["id"] in keep], "roots": list(spec["roots"])}
+    if spec.get("env"):
+        out["env"] = dict(spec["env"])  # (the environment the program runs in travels with it)
+    return out
 
 
 def program_key_paths(spec):
